@@ -12,7 +12,7 @@ from prov.model import Literal, ProvDocument, PROV_REC_CLS
 
 from ..gen import Gen
 from ..world import World
-from ..common import corr_failures
+from ..common import corr_failures, distrust_known_by_world
 from ..proto import strict_doc
 from ..runner import Failure
 
@@ -254,8 +254,10 @@ def e2e(ctx, w, d, fails, case, scenario=None):
             lost += sorted(set(a.get(k, [])) - set(b.get(k, [])))
             gained += sorted(set(b.get(k, [])) - set(a.get(k, [])))
         sig = classify(doc, lost, gained, scenario)
-        fails.append(Failure("oracle", sig, "RDF round trip differs from unified(): lost %s / gained %s" % (
-            [x[:160] for x in lost[:2]], [x[:160] for x in gained[:2]]), case))
+        f = Failure("oracle", sig, "RDF round trip differs from unified(): lost %s / gained %s" % (
+            [x[:160] for x in lost[:2]], [x[:160] for x in gained[:2]]), case)
+        f.world = w
+        fails.append(f)
 
 
 BIG_TEXTS = ["日本語の要約 — 来歴の記録", "Tiếng Việt: nguồn gốc dữ liệu", "Ελληνικά: προέλευση", "русский: происхождение",
@@ -387,6 +389,7 @@ def run(ctx, use_model=True):
             fails.extend(corr_failures(ctx, worlds, use_model=use_model))
             worlds = []
     fails.extend(corr_failures(ctx, worlds, use_model=use_model))
+    distrust_known_by_world(fails)
     if use_model:
         fails.extend(corpus_channel(ctx, g))
     return fails
